@@ -784,9 +784,11 @@ def c11_runner(prop, tier, seed, scratch, spec):
             ns = sum(1 for e in c["events"] if e[0] == "S")
             faults = [("write", n, e_, sh_) for n in range(1, nw + 1) for e_, sh_ in ((5, None), (28, 512 if n % 2 else 0))]
             faults += [("fsync", n, 5, None) for n in range(1, ns + 1)]
-            if q and len(faults) > 14:
-                keep = [f_ for f_ in faults if f_[0] == "fsync" or f_[1] in (1, nw, nw - 1)]
-                faults = keep + r.sample([f_ for f_ in faults if f_ not in keep], max(0, 14 - len(keep)))
+            # a short write that is NOT followed by an error: the commit must still succeed completely
+            faults += [("write", n, 0, 512) for n in range(1, nw + 1)]
+            if q and len(faults) > 20:
+                keep = [f_ for f_ in faults if f_[0] == "fsync" or f_[1] in (1, nw, nw - 1) or (f_[2] == 0 and f_[1] >= nw - 2)]
+                faults = keep + r.sample([f_ for f_ in faults if f_ not in keep], max(0, 20 - len(keep)))
             for kind, n, errno_, short in faults:
                 fl = "fault %s %d %d" % (kind, n, errno_) + (" %d" % short if short is not None else "")
                 hid = "c11-%d-l%d-%s%d-e%d%s" % (idx, li, kind, n, errno_, "-s%d" % short if short is not None else "")
